@@ -21,6 +21,7 @@ import (
 	"github.com/gagliardetto/solana-go"
 	"github.com/ipfs/go-cid"
 	"github.com/rpcpool/yellowstone-faithful/compactindexsized"
+	"github.com/rpcpool/yellowstone-faithful/indexes"
 	zz "github.com/rpcpool/yellowstone-faithful/zzverif"
 )
 
@@ -96,6 +97,50 @@ func TestVerifC01(t *testing.T) {
 		if err != nil {
 			viol("index all failed on a well-formed CAR: "+err.Error(), "C01:index-all-failed")
 			continue
+		}
+		// index generation under a context that is cancelled at its k-th poll: it either reports the failure or leaves
+		// exactly the files of the uncancelled build (which are checked against the model below)
+		if len(ge.Objs) <= 6000 {
+			probe := &pollCancelCtx{Context: context.Background(), at: -1, done: make(chan struct{})}
+			pdir := filepath.Join(cdir, "cancel-probe")
+			os.MkdirAll(filepath.Join(pdir, "tmp"), 0o755)
+			os.MkdirAll(filepath.Join(pdir, "idx"), 0o755)
+			createAllIndexes(probe, indexes.NetworkMainnet, filepath.Join(pdir, "tmp"), ge.Car, filepath.Join(pdir, "idx"))
+			total := probe.polls()
+			s.Add("cancel:context-polls-of-an-uncancelled-build", total)
+			ats := map[int]bool{0: true, 1: true, 2: true, total / 2: true, total - 1: true, total: true}
+			for at := range ats {
+				if at < 0 || at > total {
+					continue
+				}
+				xdir := filepath.Join(cdir, fmt.Sprintf("cancel-%d", at))
+				os.MkdirAll(filepath.Join(xdir, "tmp"), 0o755)
+				os.MkdirAll(filepath.Join(xdir, "idx"), 0o755)
+				var xp *IndexPaths
+				var xerr error
+				r := zz.Guard(func() string {
+					xp, _, xerr = createAllIndexes(newPollCancelCtx(at), indexes.NetworkMainnet, filepath.Join(xdir, "tmp"), ge.Car, filepath.Join(xdir, "idx"))
+					return ""
+				})
+				switch {
+				case r == "panic":
+					viol(fmt.Sprintf("index all panics when its context is cancelled at poll %d of %d: %s", at, total, zz.LastPanic), "C01:cancel-panic")
+				case xerr != nil:
+					s.Count("cancel:build-reports-failure")
+				default:
+					s.Count("cancel:build-reports-success")
+					for _, pr := range [][2]string{{le.Paths.CidToOffsetAndSize, xp.CidToOffsetAndSize}, {le.Paths.SlotToCid, xp.SlotToCid}, {le.Paths.SignatureToCid, xp.SignatureToCid}, {le.Paths.SignatureExists, xp.SignatureExists}, {le.Paths.SlotToBlocktime, xp.SlotToBlocktime}} {
+						a, _ := os.ReadFile(pr[0])
+						b, err := os.ReadFile(pr[1])
+						if err != nil || !bytes.Equal(a, b) {
+							viol(fmt.Sprintf("index all reports success although its context was cancelled at poll %d of %d, and %s is not the index of the uncancelled build (%d vs %d bytes, %v): lookups through it are missing or wrong", at, total, filepath.Base(pr[1]), len(b), len(a), err), "C01:success-after-cancel-differs")
+							break
+						}
+					}
+				}
+				os.RemoveAll(xdir)
+			}
+			os.RemoveAll(pdir)
 		}
 		le.Cache = newVerifCache() // one server = one cache; cases are independent servers
 		if err := le.load(cdir); err != nil {
